@@ -99,6 +99,36 @@ def gen_friendly(rng):
     return case
 
 
+def gen_candidates(rng):
+    """targeted family: SEVERAL rollups that are tried in turn, the earlier ones rejected for one reason (a missing measure, a granularity that is too
+    coarse, a missing filter column) and a later one lacking something else the query needs (the time dimension, a dimension): what one candidate
+    makes of the query must not leak into the test of the next"""
+    case = gen_friendly(rng)
+    ms = ["rev", "cnt", "mx"]
+    kind = rng.choice(["time_then_notime", "coarse_then_notime", "dims_then_nodims", "notime_then_time"])
+    if kind == "time_then_notime":
+        pre = [dict(name="r0", measures=["mn"], dimensions=["cat"], time_dimension="ts", granularity="day"),
+               dict(name="r1", measures=ms, dimensions=["cat"], time_dimension=None, granularity=None)]
+        dims = ["ts__" + rng.choice(["day", "month"])] + rng.sample(["cat"], rng.randint(0, 1))
+    elif kind == "coarse_then_notime":
+        pre = [dict(name="r0", measures=ms, dimensions=["cat", "reg"], time_dimension="ts", granularity="month"),
+               dict(name="r1", measures=ms, dimensions=["cat", "reg"], time_dimension=None, granularity=None)]
+        dims = ["ts__day"] + rng.sample(["cat", "reg"], rng.randint(0, 2))
+    elif kind == "dims_then_nodims":
+        pre = [dict(name="r0", measures=["mn"], dimensions=["cat", "reg"], time_dimension="ts", granularity="day"),
+               dict(name="r1", measures=ms, dimensions=[], time_dimension="ts", granularity="day")]
+        dims = ["ts__day", rng.choice(["cat", "reg"])]
+    else:
+        pre = [dict(name="r0", measures=ms, dimensions=["cat"], time_dimension=None, granularity=None),
+               dict(name="r1", measures=ms, dimensions=["cat"], time_dimension="ts", granularity="day")]
+        dims = ["ts__" + rng.choice(["day", "week", "month"]), "cat"]
+    case["preaggs"] = pre
+    case["mets"] = rng.sample(ms, rng.randint(1, 3))
+    case["dims"] = dims
+    case["filters"] = []
+    return case
+
+
 def build(case):
     from sidemantic import Dimension, Metric, Model, PreAggregation
     L = dbutil.fresh_layer()
@@ -313,7 +343,7 @@ def run(c):
         except Exception as e:
             c.obligation("translator validation", False, "translator", repr(e)[-900:])
     n = 260 if c.tier == "quick" else 4000
-    cases = corpus_cases() + [(gen_friendly(c.rng) if k % 2 else gen_case(c.rng)) for k in range(n)]
+    cases = corpus_cases() + [(gen_friendly(c.rng) if k % 2 else gen_case(c.rng)) for k in range(n)] + [gen_candidates(c.rng) for _ in range(max(12, n // 10))]
     results, terms, tindex = [], [], []
     stats = {"routed": 0, "not_routed": 0, "routed_equal": 0, "model_compared": 0, "exact_routes": 0, "inexact_routes": 0, "materialisation_errors": 0}
     for i, case in enumerate(cases):
